@@ -321,8 +321,8 @@ theorem cubicComplex_roots (F : CubicFns α) (r s t : α) (w : α)
   have hv : sdivc (-p) (smul 3 (a, b)) = (a, -b) := by
     simp only [sdivc, smul, Prod.mk.injEq]
     have hp : -p = 3 * (a * a + b * b) := by linear_combination -3 * hn
-    have hN : (3 * a * (3 * a) + 3 * b * (3 * b) : α) ≠ 0 := by
-      have : (3 * a * (3 * a) + 3 * b * (3 * b) : α) = 9 * (a * a + b * b) := by ring
+    have hN : (a * 3 * (a * 3) + b * 3 * (b * 3) : α) ≠ 0 := by
+      have : (a * 3 * (a * 3) + b * 3 * (b * 3) : α) = 9 * (a * a + b * b) := by ring
       rw [this]; exact mul_ne_zero (by norm_num) hnpos
     constructor
     · rw [hp, div_eq_iff hN]; ring
@@ -358,4 +358,227 @@ theorem cubicComplex_roots (F : CubicFns α) (r s t : α) (w : α)
   · have := depressed r s t (-a - b * F.sqrt3); rw [← hpdef, ← hqdef] at this; linear_combination this + root1
   · have := depressed r s t (-a + b * F.sqrt3); rw [← hpdef, ← hqdef] at this; linear_combination this + root2
 end
+/-! ### root COUNTS of the cubic: D > 0 one real root, D < 0 three distinct, D = 0 ≠ p two distinct -/
+section Counts
+variable {α : Type} [Field α] [LinearOrder α] [IsStrictOrderedRing α]
+
+/-- D > 0: a real root is THE real root.  (-108 D is the discriminant; modulo f (x) = 0 it factors as
+f'(x)² · disc (f / (X - x)), so the quadratic cofactor has negative discriminant.) -/
+theorem cubic_unique_root (r s t x y : α) (hD : 0 < cubicD r s t)
+    (hx : x * x * x + r * (x * x) + s * x + t = 0) (hy : y * y * y + r * (y * y) + s * y + t = 0) : y = x := by
+  by_contra hne
+  have hxy : y - x ≠ 0 := sub_ne_zero.mpr hne
+  have hg : y * y + (x + r) * y + (x * x + r * x + s) = 0 := by
+    have : (y - x) * (y * y + (x + r) * y + (x * x + r * x + s)) = 0 := by linear_combination hy - hx
+    exact (mul_eq_zero.mp this).resolve_left hxy
+  have ht : t = -(x * x * x) - r * (x * x) - s * x := by linear_combination hx
+  have hdisc : -108 * cubicD r s t =
+      (3 * x * x + 2 * r * x + s) ^ 2 * ((x + r) ^ 2 - 4 * (x * x + r * x + s)) := by
+    subst ht; unfold cubicD cubicP cubicQ; ring
+  have hneg : (x + r) ^ 2 - 4 * (x * x + r * x + s) < 0 := by
+    by_contra h
+    have h' := not_lt.mp h
+    have : 0 ≤ (3 * x * x + 2 * r * x + s) ^ 2 * ((x + r) ^ 2 - 4 * (x * x + r * x + s)) :=
+      mul_nonneg (sq_nonneg _) h'
+    linarith
+  have hsq : (x + r) ^ 2 - 4 * (x * x + r * x + s) = (2 * y + x + r) ^ 2 := by linear_combination -4 * hg
+  have := sq_nonneg (2 * y + x + r)
+  linarith
+
+/-- the shape of the D ≤ 0 arm: with u = (a, b) the complex cube root the library returned, v = -p/(3u) is its
+conjugate, p = -3 |u|², q = -2 Re (u³), and the values written are 2a - r/3, -a ∓ b·sqrt3 - r/3 -/
+theorem cubicComplex_form (F : CubicFns α) (r s t : α) (w : α)
+    (hD : cubicD r s t ≤ 0) (hnt : ¬ (cubicD r s t = 0 ∧ cubicP r s / 3 = 0))
+    (hcsqrt : F.csqrt (cubicD r s t, 0) = (0, w) ∧ w * w = -cubicD r s t)
+    (hcube : cmul (cmul (cubicU F r s t) (cubicU F r s t)) (cubicU F r s t) = (-(cubicQ r s t) / 2, w)) :
+    ∃ a b, cubicU F r s t = (a, b) ∧ cubicP r s = -3 * (a * a + b * b) ∧
+      cubicQ r s t = -2 * (a * a * a - 3 * a * b * b) ∧ a * a + b * b ≠ 0 ∧
+      cubicD r s t = -(b * b * ((3 * a * a - b * b) * (3 * a * a - b * b))) ∧
+      cubicComplex F r s t =
+        if cubicD r s t == 0 then (2, [2 * a - r / 3, -a - b * F.sqrt3 - r / 3])
+        else (3, [2 * a - r / 3, -a - b * F.sqrt3 - r / 3, -a + b * F.sqrt3 - r / 3]) := by
+  obtain ⟨_, hw⟩ := hcsqrt
+  set u := cubicU F r s t with hu
+  obtain ⟨a, b⟩ := u
+  set p := cubicP r s with hpdef
+  set q := cubicQ r s t with hqdef
+  have hDdef : cubicD r s t = p / 3 * (p / 3) * (p / 3) + q / 2 * (q / 2) := rfl
+  simp only [cmul, Prod.mk.injEq] at hcube
+  obtain ⟨hre, him⟩ := hcube
+  have hn3 : (a * a + b * b) * (a * a + b * b) * (a * a + b * b) = (-(p / 3)) * (-(p / 3)) * (-(p / 3)) := by
+    have : (a * a + b * b) * (a * a + b * b) * (a * a + b * b) =
+        ((a * a - b * b) * a - (a * b + b * a) * b) * ((a * a - b * b) * a - (a * b + b * a) * b) +
+        ((a * a - b * b) * b + (a * b + b * a) * a) * ((a * a - b * b) * b + (a * b + b * a) * a) := by ring
+    rw [this, hre, him, hw, hDdef]; ring
+  have hn : a * a + b * b = -(p / 3) := cube_inj _ _ hn3
+  have hp3 : p / 3 ≠ 0 := by
+    intro h0
+    apply hnt
+    refine ⟨?_, h0⟩
+    have : cubicD r s t = q / 2 * (q / 2) := by rw [hDdef, h0]; ring
+    have h2 := mul_self_nonneg (q / 2)
+    linarith
+  have hnpos : a * a + b * b ≠ 0 := by rw [hn]; exact neg_ne_zero.mpr hp3
+  have hv : sdivc (-p) (smul 3 (a, b)) = (a, -b) := by
+    simp only [sdivc, smul, Prod.mk.injEq]
+    have hp : -p = 3 * (a * a + b * b) := by linear_combination -3 * hn
+    have hN : (a * 3 * (a * 3) + b * 3 * (b * 3) : α) ≠ 0 := by
+      have : (a * 3 * (a * 3) + b * 3 * (b * 3) : α) = 9 * (a * a + b * b) := by ring
+      rw [this]; exact mul_ne_zero (by norm_num) hnpos
+    constructor
+    · rw [hp, div_eq_iff hN]; ring
+    · rw [hp, div_eq_iff hN]; ring
+  have hy0 : (cadd (a, b) (a, -b)).1 = 2 * a := by simp only [cadd]; ring
+  have hy1 : (cadd (cdivs (cneg (cadd (a, b) (a, -b))) 2) (cmul (cdivs (csub (a, b) (a, -b)) 2) (0, F.sqrt3))).1
+      = -a - b * F.sqrt3 := by simp only [cadd, cdivs, cneg, csub, cmul]; ring
+  have hy2 : (csub (cdivs (cneg (cadd (a, b) (a, -b))) 2) (cmul (cdivs (csub (a, b) (a, -b)) 2) (0, F.sqrt3))).1
+      = -a + b * F.sqrt3 := by simp only [cadd, cdivs, cneg, csub, cmul]; ring
+  have hpn : p = -3 * (a * a + b * b) := by linear_combination 3 * hn
+  have hqa : q = -2 * (a * a * a - 3 * a * b * b) := by linear_combination 2 * hre
+  have hv' : sdivc (-(cubicP r s)) (smul 3 (a, b)) = (a, -b) := hv
+  refine ⟨a, b, rfl, hpn, hqa, hnpos, ?_, ?_⟩
+  · rw [hDdef, hpn, hqa]; ring
+  · unfold cubicComplex
+    simp only [← hu, hv', hy0, hy1, hy2]
+
+/-- D < 0: three values are written, pairwise DISTINCT, and they are ALL the real roots -/
+theorem solveNormalizedCubic_three (F : CubicFns α) (r s t : α) (w : α)
+    (hD : cubicD r s t < 0)
+    (hcsqrt : F.csqrt (cubicD r s t, 0) = (0, w) ∧ w * w = -cubicD r s t)
+    (hcube : cmul (cmul (cubicU F r s t) (cubicU F r s t)) (cubicU F r s t) = (-(cubicQ r s t) / 2, w))
+    (h3 : F.sqrt3 * F.sqrt3 = 3) :
+    ∃ x0 x1 x2, solveNormalizedCubic F r s t = (3, [x0, x1, x2]) ∧ x0 ≠ x1 ∧ x1 ≠ x2 ∧ x0 ≠ x2 ∧
+      (∀ y, y * y * y + r * (y * y) + s * y + t = (y - x0) * (y - x1) * (y - x2)) ∧
+      (∀ y, y * y * y + r * (y * y) + s * y + t = 0 ↔ y = x0 ∨ y = x1 ∨ y = x2) := by
+  have hnt : ¬ (cubicD r s t = 0 ∧ cubicP r s / 3 = 0) := fun h => hD.ne h.1
+  obtain ⟨a, b, hu, hp, hq, hn, hDab, hform⟩ := cubicComplex_form F r s t w hD.le hnt hcsqrt hcube
+  have hb : b ≠ 0 := by
+    intro hb; rw [hb] at hDab; rw [hDab] at hD; simp at hD
+  have hk : 3 * a * a - b * b ≠ 0 := by
+    intro hk; rw [hk] at hDab; rw [hDab] at hD; simp at hD
+  have hS : F.sqrt3 ≠ 0 := by intro h; rw [h] at h3; norm_num at h3
+  have hprod : (3 * a + b * F.sqrt3) * (3 * a - b * F.sqrt3) = 3 * (3 * a * a - b * b) := by
+    linear_combination (-(b * b)) * h3
+  have hprod0 : (3 * a + b * F.sqrt3) * (3 * a - b * F.sqrt3) ≠ 0 := by
+    rw [hprod]; exact mul_ne_zero (by norm_num) hk
+  have hfac : ∀ y, y * y * y + r * (y * y) + s * y + t =
+      (y - (2 * a - r / 3)) * (y - (-a - b * F.sqrt3 - r / 3)) * (y - (-a + b * F.sqrt3 - r / 3)) := by
+    intro y
+    have hdep := depressed r s t (y + r / 3)
+    rw [hp, hq] at hdep
+    have e : y + r / 3 - r / 3 = y := by ring
+    rw [e] at hdep
+    rw [hdep]
+    linear_combination ((y + r / 3 - 2 * a) * (b * b)) * h3
+  refine ⟨2 * a - r / 3, -a - b * F.sqrt3 - r / 3, -a + b * F.sqrt3 - r / 3, ?_, ?_, ?_, ?_, hfac, ?_⟩
+  · rw [solveNormalizedCubic_cases, if_neg (by simp [hD.ne]), if_neg (not_lt.mpr hD.le), hform]
+    simp [hD.ne]
+  · intro h
+    apply hprod0
+    have : 3 * a + b * F.sqrt3 = 0 := by linear_combination h
+    rw [this, zero_mul]
+  · intro h
+    have : b * F.sqrt3 = 0 := by linear_combination (-1 / 2 : α) * h
+    rcases mul_eq_zero.mp this with h' | h'
+    · exact hb h'
+    · exact hS h'
+  · intro h
+    apply hprod0
+    have : 3 * a - b * F.sqrt3 = 0 := by linear_combination h
+    rw [this, mul_zero]
+  · intro y
+    rw [hfac y]
+    constructor
+    · intro h
+      rcases mul_eq_zero.mp h with h1 | h1
+      · rcases mul_eq_zero.mp h1 with h2 | h2
+        · left; linear_combination h2
+        · right; left; linear_combination h2
+      · right; right; linear_combination h1
+    · rintro (h | h | h) <;> rw [h] <;> ring
+
+/-- D = 0, p ≠ 0 (a double root and a simple one): two values are written; they are DISTINCT and ALL the real roots,
+provided the library's complex cube root is the principal one (first quadrant, closed: `0 ≤ Re u`, `0 ≤ Im u`; the
+other cube roots would make the code write the double root twice) and the literal `sqrt3` is positive -/
+theorem solveNormalizedCubic_two (F : CubicFns α) (r s t : α) (w : α)
+    (hD : cubicD r s t = 0) (hp0 : cubicP r s / 3 ≠ 0)
+    (hcsqrt : F.csqrt (cubicD r s t, 0) = (0, w) ∧ w * w = -cubicD r s t)
+    (hcube : cmul (cmul (cubicU F r s t) (cubicU F r s t)) (cubicU F r s t) = (-(cubicQ r s t) / 2, w))
+    (h3 : F.sqrt3 * F.sqrt3 = 3) (h3pos : 0 < F.sqrt3)
+    (hprinc : 0 ≤ (cubicU F r s t).1 ∧ 0 ≤ (cubicU F r s t).2) :
+    ∃ x0 x1, solveNormalizedCubic F r s t = (2, [x0, x1]) ∧ x0 ≠ x1 ∧
+      (∀ y, y * y * y + r * (y * y) + s * y + t = 0 ↔ y = x0 ∨ y = x1) := by
+  have hnt : ¬ (cubicD r s t = 0 ∧ cubicP r s / 3 = 0) := fun h => hp0 h.2
+  obtain ⟨a, b, hu, hp, hq, hn, hDab, hform⟩ := cubicComplex_form F r s t w hD.le hnt hcsqrt hcube
+  rw [hu] at hprinc
+  obtain ⟨ha0, hb0⟩ := hprinc
+  simp only at ha0 hb0
+  have hprod : (3 * a + b * F.sqrt3) * (3 * a - b * F.sqrt3) = 3 * (3 * a * a - b * b) := by
+    linear_combination (-(b * b)) * h3
+  have hsum : 3 * a + b * F.sqrt3 ≠ 0 := by
+    intro h
+    have h1 : 0 ≤ b * F.sqrt3 := mul_nonneg hb0 h3pos.le
+    have ha : a = 0 := by linarith
+    have hb : b * F.sqrt3 = 0 := by linarith
+    have hb' : b = 0 := by
+      rcases mul_eq_zero.mp hb with h' | h'
+      · exact h'
+      · exact absurd h' h3pos.ne'
+    apply hn; rw [ha, hb']; ring
+  have hzero : b * b * ((3 * a * a - b * b) * (3 * a * a - b * b)) = 0 := by
+    have := hDab; rw [hD] at this; linear_combination this
+  -- the third Cardano value coincides with one of the two written ones
+  have hthird : -a + b * F.sqrt3 - r / 3 = -a - b * F.sqrt3 - r / 3 ∨ -a + b * F.sqrt3 - r / 3 = 2 * a - r / 3 := by
+    rcases mul_eq_zero.mp hzero with hb | hk
+    · left
+      have : b = 0 := by rcases mul_eq_zero.mp hb with h | h <;> exact h
+      rw [this]; ring
+    · right
+      have hk' : 3 * a * a - b * b = 0 := by rcases mul_eq_zero.mp hk with h | h <;> exact h
+      have : (3 * a + b * F.sqrt3) * (3 * a - b * F.sqrt3) = 0 := by rw [hprod, hk']; ring
+      have h2 : 3 * a - b * F.sqrt3 = 0 := (mul_eq_zero.mp this).resolve_left hsum
+      linear_combination -h2
+  have hfac : ∀ y, y * y * y + r * (y * y) + s * y + t =
+      (y - (2 * a - r / 3)) * (y - (-a - b * F.sqrt3 - r / 3)) * (y - (-a + b * F.sqrt3 - r / 3)) := by
+    intro y
+    have hdep := depressed r s t (y + r / 3)
+    rw [hp, hq] at hdep
+    have e : y + r / 3 - r / 3 = y := by ring
+    rw [e] at hdep
+    rw [hdep]
+    linear_combination ((y + r / 3 - 2 * a) * (b * b)) * h3
+  refine ⟨2 * a - r / 3, -a - b * F.sqrt3 - r / 3, ?_, ?_, ?_⟩
+  · rw [solveNormalizedCubic_cases, if_neg (by simp [hp0]), if_neg (by rw [hD]; exact lt_irrefl 0), hform]
+    simp [hD]
+  · intro h
+    apply hsum
+    linear_combination h
+  · intro y
+    rw [hfac y]
+    constructor
+    · intro h
+      rcases mul_eq_zero.mp h with h1 | h1
+      · rcases mul_eq_zero.mp h1 with h2 | h2
+        · left; linear_combination h2
+        · right; linear_combination h2
+      · rcases hthird with h3' | h3'
+        · right; rw [← h3']; linear_combination h1
+        · left; rw [← h3']; linear_combination h1
+    · rintro (h | h) <;> rw [h] <;> ring
+end Counts
+
+/-! ### vocabulary of the T-route tie (Props/C17.lean `gen_solve…`; also imported by the check's failing-input search) -/
+section Link
+variable {α : Type} [Field α]
+/-- the C++ solvers write their roots into `x[0..2]`, which the extraction entry initialises with 0 and returns whole:
+`(count, x[0], x[1], x[2])` of a hand-model result `(count, slots written)` -/
+def slots1 (r : Int × List α) : Int × α := (r.1, r.2.getD 0 0)
+def slots2 (r : Int × List α) : Int × α × α := (r.1, r.2.getD 0 0, r.2.getD 1 0)
+def slots3 (r : Int × List α) : Int × α × α × α := (r.1, r.2.getD 0 0, r.2.getD 1 0, r.2.getD 2 0)
+
+/-- the library functions that are parameters of the extracted solvers, in the hand model's vocabulary; `sqrt3` is the
+literal `T (1.73205080756887729352744634150587)` of the source as a binary fraction -/
+def genF (sqrt : α → α) (pow copysign : α → α → α) (cpow : α → α → α → α × α) (csqrt : α → α → α × α) : CubicFns α :=
+  ⟨sqrt, copysign 1, pow, fun z => csqrt z.1 z.2, fun z y => cpow z.1 z.2 y, (3900231685776981 : α) / 2251799813685248⟩
+end Link
 end ImathVerif.Roots
